@@ -1,6 +1,7 @@
 package vrt
 
 import (
+	"time"
 	"context"
 	"reflect"
 )
@@ -385,6 +386,28 @@ func AfterFunc(ctx context.Context, f func()) (stop func() bool) {
 
 // WaitDone blocks the calling thread until ctx is cancelled (its modelled Done channel is closed):
 // what a blocking system call that honours a context does (a connect to a host that never answers).
+// WaitDoneUntil waits until ctx is done or the virtual clock reaches dl (zero: no deadline).
+func WaitDoneUntil(ctx context.Context, dl time.Time) {
+	if dl.IsZero() {
+		WaitDone(ctx)
+		return
+	}
+	e := cur
+	if e == nil || e.aborting {
+		return
+	}
+	done := ctx.Done()
+	if done == nil {
+		WaitUntilOr("ctx.wait", nil, func() bool { return false }, func() time.Time { return dl })
+		return
+	}
+	id, _ := chid(done)
+	WaitUntilOr("ctx.wait", id, func() bool { return e.cs(id).closed }, func() time.Time { return dl })
+	if e.running != nil && e.cs(id).closed {
+		e.running.vc.join(e.cs(id).closeVC)
+	}
+}
+
 func WaitDone(ctx context.Context) {
 	e := cur
 	if e == nil || e.aborting {
